@@ -26,7 +26,7 @@ func main() {
 	if p := ev.Arg("replay"); p != "" {
 		// a replay file names its scenario; try each part until one knows it
 		for _, part := range parts {
-			cmd := exec.Command(filepath.Join(ev.Root, ".build", "bin", "c12-"+part), "--replay", p)
+			cmd := exec.Command(filepath.Join(binDir(), "c12-"+part), "--replay", p)
 			cmd.Env = append(os.Environ(), "VERIF_AS=C12", "VERIF_PART="+part)
 			out, _ := cmd.CombinedOutput()
 			if !strings.Contains(string(out), "unknown scenario") {
@@ -41,7 +41,7 @@ func main() {
 	perPart := map[string]any{}
 	failed := false
 	for _, part := range parts {
-		cmd := exec.Command(filepath.Join(ev.Root, ".build", "bin", "c12-"+part), "--tier", r.Tier)
+		cmd := exec.Command(filepath.Join(binDir(), "c12-"+part), "--tier", r.Tier)
 		cmd.Env = append(os.Environ(), "VERIF_AS=C12", "VERIF_PART="+part)
 		out, err := cmd.CombinedOutput()
 		for _, l := range strings.Split(string(out), "\n") {
@@ -96,4 +96,11 @@ func main() {
 		r.Violate("see-parts", "one of the parts reported a pool-ownership violation (lines above)", nil)
 	}
 	r.Finish()
+}
+
+func binDir() string {
+	if d := os.Getenv("VERIF_BIN_DIR"); d != "" {
+		return d
+	}
+	return filepath.Join(ev.Root, ".build", "bin")
 }
